@@ -7,6 +7,7 @@ import (
 	"os"
 	"path/filepath"
 	"runtime"
+	"sort"
 	"strings"
 	"time"
 
@@ -126,8 +127,25 @@ func main() {
 		}
 		ex := NewExplorer(prog, *workers)
 		ex.verbose = *verbose
+		if os.Getenv("GOSX_SITES") != "" {
+			siteStats = map[string]int{}
+		}
 		t0 := time.Now()
 		ex.Run([]*Job{job})
+		if siteStats != nil {
+			type kv struct {
+				k string
+				n int
+			}
+			var l []kv
+			for k, n := range siteStats {
+				l = append(l, kv{k, n})
+			}
+			sort.Slice(l, func(i, j int) bool { return l[i].n > l[j].n })
+			for i := 0; i < len(l) && i < 25; i++ {
+				fmt.Println(l[i].n, l[i].k)
+			}
+		}
 		fmt.Println(job.summary())
 		fmt.Printf("solver: %d queries (%d sat, %d unsat, %d unknown) %.2fs; wall %.2fs; steps %d\n",
 			ex.solverStats.q, ex.solverStats.sat, ex.solverStats.unsat, ex.solverStats.unk, ex.solverStats.t.Seconds(), time.Since(t0).Seconds(), job.steps)
